@@ -48,7 +48,7 @@ func runRecovery(r *rand.Rand, scenario int) {
 	f.md = md
 
 	ttl := 60 * time.Millisecond
-	tr := &kafka.Transport{Dial: f.dial, MetadataTTL: ttl, ClientID: "c12", DialTimeout: 3 * time.Second}
+	tr := &kafka.Transport{Dial: f.dial, MetadataTTL: ttl, IdleTimeout: 10 * time.Minute, ClientID: "c12", DialTimeout: 3 * time.Second}
 	h, p := hostOf(boot.addr)
 	bootAddr := kafka.TCP(fmt.Sprintf("%s:%d", h, p))
 	defer func() {
@@ -78,6 +78,7 @@ func runRecovery(r *rand.Rand, scenario int) {
 		return false
 	}
 	if !syncWithin(15 * time.Second) {
+		frozenSeen++
 		emit("e2efail", "recovery-initial", "the first metadata view never arrived within 15s", "recovery")
 		return
 	}
@@ -127,8 +128,8 @@ func runRecovery(r *rand.Rand, scenario int) {
 	after := current()
 
 	t1 := time.Now()
-	slack := 3 * time.Second // 50 TTLs; healthy code needs about two
-	synced := syncWithin(slack)
+	bound := 10*ttl + 3*time.Second // healthy code needs about two TTLs
+	synced := syncWithin(bound)
 	lag := time.Since(t1)
 	f.mu.Lock()
 	mdAfter := 0
